@@ -1,6 +1,7 @@
 package main
 
 import (
+	"verif/internal/effects"
 	"verif/internal/kinds"
 	"verif/internal/load"
 	"verif/internal/report"
@@ -28,7 +29,7 @@ func (c *Ctx) visitorRule(rule string, fn ruleFn) {
 }
 
 func init() {
-	for _, id := range []string{"C01", "C02", "C03", "C04", "C05", "C06", "C07", "C08", "C10", "C11", "C13", "C14", "C17"} {
+	for _, id := range []string{"C01", "C02", "C03", "C04", "C05", "C06", "C07", "C08", "C10", "C11", "C14", "C17"} {
 		notApplicable[id] = "check not built yet at this commit (see DESIGN.md §7 build order); no claim is made"
 	}
 	properties["C12"] = &Property{
@@ -165,6 +166,37 @@ func init() {
 				c.Add(small.OrderDomain(p))
 				c.Add(small.DispatchShape(p))
 				c.Add(small.VersionFlow(p))
+			}
+		},
+	}
+
+	properties["C13"] = &Property{
+		Level:     "proof",
+		LevelText: "Effect analysis on go/ssa over every function of the observer packages (printer, dumper, traverser, nsresolver, visitor) and everything they call statically in the module: no instruction can write tree storage. A write to the tree needs a Store through a field address of a pkg/ast, pkg/token or pkg/position struct, an index-store / append / copy into a slice that may alias tree storage, or a callee outside the module that writes its argument; all four are excluded for every instruction. Since no observer can change any tree byte, any sequence of observer runs sees the same tree, which is the property.",
+		LevelNote: "Trusted: go/ssa construction, the freshness/aliasing over-approximation (a value of tree-capable type is assumed to alias the tree unless it is built in the same function), the reviewed list of read-only external sinks (io.Writer.Write contract, bytes.Has*, strconv.Quote, …). The visitor wrapped by the Traverser is assumed passive (the property's own precondition). unsafe/reflect are absent from these packages (checked by no-nondeterminism under C11).",
+		Technique: "static analysis: SSA store/effect analysis with type-based alias over-approximation",
+		Engine:    "effects",
+		Explanation: "tree-readonly: for each SSA function: Store whose address chain passes a FieldAddr on a tree struct that is not a local allocation; Store through IndexAddr on a slice that is tree-capable and not fresh; append/copy/clear whose destination may alias the tree; stores through pointer parameters of tree type; tree-derived arguments to functions outside the module that are not in the reviewed read-only set; tree-derived arguments to interface methods other than io.Writer.Write, Vertex.Accept/GetPosition.",
+		Assumptions: []string{"the visitor given to the Traverser is passive", "io.Writer implementations honour the Write contract (must not modify the slice)"},
+		TrustedBase: append([]string{"go/ssa (x/tools v0.29.0)"}, baseTrusted...),
+		Floors: []report.Floor{
+			{Rule: "tree-readonly", What: "functions", Min: 650},
+		},
+		Run: func(c *Ctx) {
+			c.Fixture("mini", "tree-readonly", true, func(p *load.Program, tb *kinds.Table) *report.RuleResult {
+				w, err := effects.NewWorld(p)
+				if err != nil {
+					panic(err)
+				}
+				return effects.TreeReadonly(w, "pkg/visitor/printer", "pkg/visitor/dumper", "pkg/visitor/traverser", "pkg/visitor/badobs")
+			})
+			if p, _, ok := c.RepoProgram(true); ok {
+				w, err := effects.NewWorld(p)
+				if err != nil {
+					c.Fail("tree-readonly", "ssa", "ssa: "+err.Error())
+					return
+				}
+				c.Add(effects.TreeReadonly(w, "pkg/visitor/printer", "pkg/visitor/dumper", "pkg/visitor/traverser", "pkg/visitor/nsresolver", "pkg/visitor"))
 			}
 		},
 	}
